@@ -65,6 +65,24 @@ def build_frames(r, lpts, kind, shapes, index_kind, clash):
         rcols["name"] = [f"rn{j}" for j in range(nr)]
     ldf = GeoDataFrame(lcols, index=pd.Index(lidx, name=("lid" if index_kind == "named" else None)))
     rdf = GeoDataFrame(rcols, index=pd.Index(ridx, name=("rid" if index_kind == "named" else None)))
+    # half of the time the frames are contiguous row slices of larger frames (geometry arrays with a non-zero buffer offset): what
+    # lies before and behind the window must not matter
+    if r.random() < 0.5 and nr:
+        def windowed(cols, idx, name, kind_, els, front):
+            filler = [e for e in els if e is not None and geo.verts_of(kind_, e)] or [els[0]]
+            pad_f = [filler[(3 * i + 1) % len(filler)] for i in range(front)]
+            pad_b = [filler[(5 * i + 2) % len(filler)] for i in range(2)]
+            big = {}
+            for c, v in cols.items():
+                if c == "geometry":
+                    big[c] = geo.make_array(kind_, pad_f + list(els) + pad_b, "float64")
+                else:
+                    big[c] = [v[0]] * front + list(v) + [v[0]] * 2
+            bidx = [idx[0]] * front + list(idx) + [idx[0]] * 2
+            return GeoDataFrame(big, index=pd.Index(bidx, name=name)).iloc[front:front + len(els)]
+        rdf = windowed(rcols, ridx, ("rid" if index_kind == "named" else None), kind, shapes, r.choice((1, 2, 3)))
+        if nl:
+            ldf = windowed(lcols, lidx, ("lid" if index_kind == "named" else None), "point", lpts, r.choice((0, 1, 2)))
     return ldf, rdf, lidx, ridx
 
 
